@@ -264,6 +264,13 @@ class Program:
     def call(self, f, args, kwargs=None):
         return self.it.call(f, list(args), dict(kwargs or {}), None, None)
 
+    def class_attr(self, cls_: IClass, name):
+        """class-level attribute or (class-bound) method of an interpreted class"""
+        if name in cls_.methods:
+            m_ = cls_.methods[name]
+            return m_.bind(cls_) if self.it._method_kind(m_) == "classmethod" else m_
+        return self.it.class_attr(cls_, name)
+
     def method(self, obj: Obj, name):
         m = obj.cls.methods.get(name)
         if m is None:
